@@ -31,7 +31,8 @@ EXPLANATION = (
     'clipped after the ordering projection (W4); every hyperparameter reaches '
     'the projection and the constraint is attached whenever it acts (W1, W3).'
     ' Also decided: each categorical bound is clipped under its own guard (K3); the topological order is a depth-first finish order, emitted on finish and reversed (O2); the range width enters the scaling only when upper > lower and zero-width pair dimensions are rejected (D2).'
-    ' In every configuration state with ordering pairs given the categorical projection runs the ordering projection (K3 must-run).')
+    ' In every configuration state with ordering pairs given the categorical projection runs the ordering projection (K3 must-run).'
+    ' Nothing that is used later is computed from a value before the statement that clips that value (X5, self-clip order).')
 ASSUMPTIONS = ['tf.maximum/minimum/norm/unstack semantics',
                'a convex combination of feasible points is feasible']
 
